@@ -48,8 +48,8 @@ impl Property for C12 {
             knobs: Knobs { max_nodes: 24, max_ops: 12, variant, ..Default::default() },
         };
         match tier {
-            Tier::Quick => vec![mk("clone_node", 16_000, 0), mk("clone_with_prefixes", 60_000, 1), mk("xot_clone", 4_000, 2)],
-            Tier::Thorough => vec![mk("clone_node", 600_000, 0), mk("clone_with_prefixes", 600_000, 1), mk("xot_clone", 100_000, 2)],
+            Tier::Quick => vec![mk("clone_node", 16_000, 0), mk("clone_with_prefixes", 200_000, 1), mk("xot_clone", 4_000, 2)],
+            Tier::Thorough => vec![mk("clone_node", 600_000, 0), mk("clone_with_prefixes", 2_000_000, 1), mk("xot_clone", 100_000, 2)],
         }
     }
 
@@ -204,7 +204,26 @@ impl C12 {
         if els.is_empty() {
             return Verdict::Pass;
         }
-        let e = els[src.choice_big(els.len())];
+        let mut e = els[src.choice_big(els.len())];
+        // rare layout made frequent: a no-namespace element below a default namespace (which the
+        // serializer undeclares in place) whose descendants use the outer namespaces
+        let under_default: Vec<Node> = els
+            .iter()
+            .copied()
+            .filter(|n| {
+                xot.element(*n).map(|el| xot.namespace_for_name(el.name()) == xot.no_namespace()).unwrap_or(false)
+                    && xot
+                        .ancestors(*n)
+                        .take(10_000)
+                        .find_map(|a| if xot.is_element(a) { xot.namespaces(a).get(xot.empty_prefix()).copied() } else { None })
+                        .map(|u| u != xot.no_namespace())
+                        .unwrap_or(false)
+            })
+            .collect();
+        if !under_default.is_empty() && src.ratio(1, 3) {
+            e = under_default[src.choice_big(under_default.len())];
+            ctx.label("no_ns_element_under_default_ns");
+        }
         ctx.fingerprint(&(doc.clone(), els.iter().position(|x| *x == e)));
         ctx.rendering(|| doc.show());
         let in_place_ok = matches!(guarded(|| xot.to_string(root)), Ok(Ok(_)));
